@@ -557,7 +557,13 @@ impl<R: Round> Context<R> {
         } else {
             // if the exponent is large, then we first estimate the result exponent as floor(exponent * log(B) / log(NewB)),
             // then the fractional part is multiplied with the original significand
-            let work_context = Context::<R>::new(2 * self.precision); // double the precision to get the precise logarithm
+            // double the precision to get the precise logarithm. The product exponent * ln(B) has about
+            // log_NewB(|exponent| * ln(B)) digits in front of the point, and the Euclidean division below
+            // cancels them: the work precision needs as many digits more, otherwise a precision that is small
+            // compared with the size of the exponent leaves no correct digit in the remainder
+            // (ln(B) < bit length of B)
+            let int_digits = digit_len::<NewB>(&(IBig::from(repr.exponent) * B.bit_len()));
+            let work_context = Context::<R>::new(2 * self.precision + int_digits);
             let new_exp = repr.exponent
                 * work_context
                     .ln(&Repr::new(Repr::<B>::BASE.into(), 0))
